@@ -82,22 +82,32 @@ theorem bimap_zero_value {K V : Type} [DecidableEq K] [DecidableEq V] (ops : Lis
 
 /-! ## persistent ordered set
 
-Full statement (not proved yet — the lifting from `items` to heaps is missing):
-
-  theorem pset_refines (ops : List (PSOp T)) :
-      (PersistentSet.items T).run (PersistentSet.items T).init ops =
-        (Verif.Spec.DS.PS.items T).run (Verif.Spec.DS.PS.items T).init ops
-
 Model and spec run the *same* set-level code (`PSItems.step` in `Model/DS/Ops.lean`: parent chain on a
 heap, `Contains ForEach IsEmpty Add AddIntersection Clone`) and differ only in the `items` field:
-`*orderedmap.OrderedMap[T, struct{}]` (nil, then the zero value) against a plain list.  Proved below:
-every `items` operation of the model simulates the list operation.  Missing: the (routine) induction
-lifting this pointwise relation through heaps, chains and operation sequences; the `ds` stream
-compares both machines with the Go code on every `ps` line. -/
+`*orderedmap.OrderedMap[T, struct{}]` (nil, then the zero value) against a plain list. -/
+
+/-- **Refinement, every operation sequence.**  From the empty heap with all registers nil, whatever
+    the sequence of `NewOrderedSet(parent)`, `Clone`, `Add`, `Contains`, `ForEach` (with and without
+    an early stop), `AddIntersection`, `IsEmpty` (arbitrary items, register aliasing, shared
+    ancestors, nil receivers and their nil-pointer panics), the code-shaped model (objects whose
+    `items` is nil or an ordered map starting as the zero value) produces exactly the observations of
+    the spec (objects owning a plain list of items, seen before the ancestors' items). -/
+theorem pset_refines {T : Type} [DecidableEq T] (ops : List (PSOp T)) :
+    (PersistentSet.items T).run (PersistentSet.items T).init ops =
+      (Verif.Spec.DS.PS.items T).run (Verif.Spec.DS.PS.items T).init ops :=
+  Verif.Proofs.DS.PS.run_sim Verif.Proofs.DS.PS.model_itemsSim Verif.Proofs.DS.PS.init_sim ops
+
+/-- what the spec machine computes, in closed form: `Contains` is membership in the concatenation of
+    the own lists along the parent chain, `ForEach` visits exactly that concatenation, `IsEmpty` says
+    it is empty. -/
+theorem pset_spec_meaning {T : Type} [DecidableEq T] (h : (Verif.Spec.DS.PS.items T).Heap) (s : Option Nat) (x : T) :
+    PSItems.setContains (Verif.Spec.DS.PS.items T) h s x = (PSItems.forEach (Verif.Spec.DS.PS.items T) h s).contains x ∧
+    PSItems.isEmpty (Verif.Spec.DS.PS.items T) h s = (PSItems.forEach (Verif.Spec.DS.PS.items T) h s).isEmpty :=
+  ⟨Verif.Proofs.DS.PS.spec_contains h s x, Verif.Proofs.DS.PS.spec_isEmpty h s⟩
 
 /-- `items`-level simulation: the ordered-map field behaves as the list of its keys in insertion
     order, for `Contains`, `Set` of a new item (the only way `Add` calls it), iteration and emptiness. -/
-theorem pset_items_refine_partial {T : Type} [DecidableEq T] :
+theorem pset_items_refine {T : Type} [DecidableEq T] :
     Verif.Proofs.DS.PS.RI (PersistentSet.items T).nil (Verif.Spec.DS.PS.items T).nil ∧
     ∀ (i : Option (OrderedMap.OM T Unit)) (l : List T), Verif.Proofs.DS.PS.RI i l →
       (∀ x, (PersistentSet.items T).contains i x = (Verif.Spec.DS.PS.items T).contains l x) ∧
@@ -112,10 +122,7 @@ example : (PersistentSet.items Nat).run (PersistentSet.items Nat).init
     [.mk 0 none, .add 0 1, .clone 1 0, .add 1 2, .add 0 2, .each 1, .each 0, .has 1 1, .add 2 5] =
     [.done, .done, .done, .done, .done, .items [2, 1, 2], .items [1, 2], .bool true, .goPanic] := by decide
 
-/-! ## interval tree
-
-Not proved: `searchAll` exact (`SearchAll p` = exactly the entries containing `p`, as a multiset) —
-checked on every `sa` operation of the `ds` stream against the spec. -/
+/-! ## interval tree -/
 section ist
 open Verif.Model.DS.IntervalST Verif.Proofs.DS.IST
 
@@ -195,6 +202,37 @@ theorem ist_get_exact {T : Type} (puts : List (Interval × T × List Bool)) (q :
     cases hg : IntervalST.get (istAfter puts) q with
     | none => rw [hg] at hc; simp at hc
     | some v => exact ⟨v, h.2.mem_iff.1 (get_sound hg)⟩
+
+/-- **`SearchAll` is exact**: after any sequence of `Put`s under any oracles, `SearchAll p` returns
+    exactly the entries that were put and whose interval contains `p`, as a multiset (each stored
+    duplicate once; the order is the visiting order node – left subtree – right subtree restricted to
+    the hits, which depends on the random shape), and the internal `found` flag says whether there is
+    one.  The pruning (`left.max < p` skips the left subtree; nothing found in a left subtree that
+    reaches `p` skips the right one) loses no entry. -/
+theorem ist_searchAll_exact {T : Type} (puts : List (Interval × T × List Bool)) (p : Int) :
+    (searchAllTop (istAfter puts) p).Perm ((istSpec puts).filter (fun e => e.1.contains p)) ∧
+    searchAllTop (istAfter puts) p = (preorder (istAfter puts)).filter (fun e => e.1.contains p) ∧
+    (searchAll (istAfter puts) p []).1 = (istSpec puts).any (fun e => e.1.contains p) := by
+  have h := ist_invariant puts
+  refine ⟨?_, searchAllTop_exact h.1 p, ?_⟩
+  · rw [searchAllTop_exact h.1 p]
+    exact (hits_perm _ p).trans (h.2.filter _)
+  · rw [searchAll_exact h.1 p []]
+    show (!(hits (istAfter puts) p).isEmpty) = _
+    rw [Bool.eq_iff_iff]
+    simp only [Bool.not_eq_true', List.isEmpty_eq_false_iff, ne_eq, hits_eq_nil_iff, List.any_eq_true]
+    constructor
+    · intro hne
+      by_contra hno
+      exact hne (fun e he => by
+        cases hc : e.1.contains p with
+        | false => rfl
+        | true => exact absurd ⟨e, h.2.mem_iff.1 he, hc⟩ hno)
+    · rintro ⟨e, he, hc⟩ hall
+      rw [hall e (h.2.mem_iff.2 he)] at hc; cases hc
+
+example : searchAllTop (istAfter [(⟨1, 3⟩, 8, [false]), (⟨1, 3⟩, 7, []), (⟨5, 9⟩, 1, []), (⟨2, 6⟩, 4, [false, false])]) 2 =
+    [(⟨1, 3⟩, 7), (⟨1, 3⟩, 8), (⟨2, 6⟩, 4)] := by decide
 
 example : search (istAfter [(⟨1, 3⟩, 8, [false]), (⟨1, 3⟩, 7, []), (⟨5, 9⟩, 1, [])]) 2 = some (⟨1, 3⟩, 7) := by decide
 example : search (istAfter [(⟨1, 3⟩, 8, [false]), (⟨1, 3⟩, 7, []), (⟨5, 9⟩, 1, [])]) 4 = none := by decide
